@@ -88,6 +88,21 @@ func newCertKit(t *testing.T, dir string) *certKit {
 	k.creds["expired"] = mkLeaf("peer", "proxy.test", ca1, ca1Key, time.Now().Add(-time.Hour), both)
 	k.creds["wrongUsage.client"] = mkLeaf("peer", "proxy.test", ca1, ca1Key, future, []x509.ExtKeyUsage{x509.ExtKeyUsageServerAuth})
 	k.creds["wrongUsage.server"] = mkLeaf("peer", "proxy.test", ca1, ca1Key, future, []x509.ExtKeyUsage{x509.ExtKeyUsageClientAuth})
+	// multi-certificate presentations. TLS proves possession of the key of the FIRST certificate only: a peer may append
+	// any public certificate it has seen on the wire.
+	{
+		key, _ := ecdsa.GenerateKey(elliptic.P256(), rand.Reader)
+		serial++
+		tmpl := &x509.Certificate{SerialNumber: big.NewInt(serial), Subject: pkix.Name{CommonName: "intruder"}, DNSNames: []string{"proxy.test"}, NotBefore: time.Now().Add(-time.Hour), NotAfter: future,
+			IsCA: true, BasicConstraintsValid: true, KeyUsage: x509.KeyUsageCertSign | x509.KeyUsageDigitalSignature, ExtKeyUsage: both}
+		der, err := x509.CreateCertificate(rand.Reader, tmpl, tmpl, &key.PublicKey, key)
+		if err != nil {
+			t.Fatal(err)
+		}
+		k.creds["borrowedChain"] = &tls.Certificate{Certificate: [][]byte{der, k.creds["validChain"].Certificate[0]}, PrivateKey: key}
+		vc := k.creds["validChain"]
+		k.creds["validPlusCA"] = &tls.Certificate{Certificate: [][]byte{vc.Certificate[0], ca1DER}, PrivateKey: vc.PrivateKey}
+	}
 	// files
 	k.caFileGood = filepath.Join(dir, "ca.pem")
 	pemWrite(t, k.caFileGood, "CERTIFICATE", ca1DER)
@@ -225,7 +240,7 @@ func TestC19(t *testing.T) {
 	dir := filepath.Join(e.Out, "certs")
 	_ = os.MkdirAll(dir, 0o700)
 	k := newCertKit(t, dir)
-	creds := []string{"validChain", "wrongName", "selfSigned", "otherCA", "expired", "wrongUsage", "none"}
+	creds := []string{"validChain", "wrongName", "selfSigned", "otherCA", "expired", "wrongUsage", "borrowedChain", "validPlusCA", "none"}
 	var cases []tlsCase
 	for _, hc := range []bool{true, false} {
 		for _, sn := range []bool{true, false} {
@@ -271,7 +286,7 @@ func TestC19(t *testing.T) {
 				e.Evals++
 				e.Distinct(fnv(op))
 				e.Count("server_" + cred + "_" + got)
-				if !c.skip && got == "admit" && cred != "validChain" && cred != "wrongName" {
+				if !c.skip && got == "admit" && cred != "validChain" && cred != "wrongName" && cred != "validPlusCA" {
 					viol(fmt.Sprintf("server with CA verification configured (%s) admitted a %s client", c.String(), cred), op)
 				}
 			}
@@ -288,7 +303,7 @@ func TestC19(t *testing.T) {
 				e.Evals++
 				e.Distinct(fnv(op))
 				e.Count("client_" + cred + "_" + got)
-				if !c.skip && got == "admit" && cred != "validChain" {
+				if !c.skip && got == "admit" && cred != "validChain" && cred != "validPlusCA" {
 					viol(fmt.Sprintf("client with CA verification configured (%s) accepted a %s server", c.String(), cred), op)
 				}
 			}
@@ -335,7 +350,7 @@ func TestC19(t *testing.T) {
 			e.Evals++
 			e.Distinct(fnv(op))
 			e.Count("listener_" + lst + "_" + cred + "_" + got)
-			if got == "admit" && cred != "validChain" && cred != "wrongName" {
+			if got == "admit" && cred != "validChain" && cred != "wrongName" && cred != "validPlusCA" {
 				viol(fmt.Sprintf("%s listener with CA verification configured admitted a %s client", lst, cred), op)
 			}
 		}
